@@ -6,13 +6,13 @@ props = [json.loads(l) for l in open(os.path.join(HERE, 'properties.jsonl'))]
 TECH = 'bounded symbolic execution of rustc MIR (mirse) with z3 deciding every branch and assertion; counterexamples replayed natively'
 CLAIMED = {
  'C01': ('5/C01', 'grounded() executed symbolically on ADF families whose truth tables are solver variables; z3 decides per path that the result equals the least fixpoint written as a formula over the tables. Bounded: all 2-statement ADFs, 3/4-statement families with 1-2 symbolic statements.',
-         'mirse: native back-end, std containers/iterators under models. Biodivine / hybrid back-ends (with and without pre-grounding): second engine of the same family - the real binary answers seeded texts (up to 300 statements) and z3 decides the least fixpoint on the formulas of each text; that part validates instances, it is not exhaustive'),
+         'mirse: native back-end, std containers/iterators under models. The biodivine-based Adf (adfbiodivine.rs) and the naive Adf obtained through hybrid_step() / hybrid_step_opt(false) are executed symbolically too, with the external crate biodivine_lib_bdd replaced by a contract model (Boolean functions as truth tables of solver terms; mirse/models_bio.py, compared with the real library on concrete instances every run). In addition the real binary (real biodivine) answers seeded texts (up to 300 statements) and z3 decides the least fixpoint on the formulas of each text; that part validates instances, it is not exhaustive'),
  'C02': ('5/C02', 'complete() executed symbolically; for all 3^n candidate interpretations z3 decides membership <=> fixpoint-of-consequence-operator, plus duplicate-freeness and grounded-first. Same bounded ADF families as C01.',
-         'mirse: native back-end under std models; biodivine / hybrid back-ends via z3-judged answers of the real binary on seeded texts with 2-6 statements (per-instance validation)'),
+         'mirse: native back-end under std models; adfbiodivine::Adf::complete and complete() after hybrid_step() symbolically on the biodivine contract model (mirse/models_bio.py); plus z3-judged answers of the real binary (real biodivine) on seeded texts with 2-6 statements (per-instance validation)'),
  'C03': ('5/C03', 'stable() and stable_with_prefilter() executed symbolically; for all 2^n candidates z3 decides membership <=> (model and reduct-grounded re-derives the true statements). Same families as C01.',
-         'mirse: native plain and pre-filter variants under std models; biodivine / hybrid back-ends and both rewriting variants via z3-judged answers of the real binary on seeded texts (per-instance validation)'),
+         'mirse: native plain and pre-filter variants under std models; adfbiodivine::Adf::stable / stable_bdd_representation and stable / stable_with_prefilter / stable_bdd_representation(&bio) after hybrid_step(), stable after hybrid_step_opt(false) symbolically on the biodivine contract model (mirse/models_bio.py); the parser-based rewriting (--stmrew) and all of the above again via z3-judged answers of the real binary on seeded texts (per-instance validation)'),
  'C04': ('5/C04', 'both counting-guided procedures executed symbolically incl. heuristics comparators, path cubes and counting tables; result set compared with the stable-model definition by z3 for every ADF of the bounded families.',
-         'mirse: native back-end under std models; hybrid back-ends via z3-judged answers of the real binary on seeded texts (per-instance validation)'),
+         'mirse: native back-end under std models and the same procedures after hybrid_step() on the biodivine contract model; a unit job decides the documented contract of Bdd::interpretations for all diagrams over 3 (thorough: 4) variables - a breach is reported only through an ADF, found by a native search over the completions, on which heuristics a/b answer wrongly; hybrid back-ends also via z3-judged answers of the real binary on seeded texts (per-instance validation)'),
  'C05': ('5/C05', 'nogood search executed symbolically for Simple, both counting heuristics, Rand (every draw a fresh solver variable) and a Custom model heuristic (every admissible choice explored); delivered multiset compared with the definition, sender drop checked in the channel model, fuel exhaustion = non-termination candidate confirmed natively.',
          'roaring bitmaps as 32-bit vectors, crossbeam channel as FIFO model, StdRng over-approximated; bounded families (Rand/Custom: all 2-statement ADFs + seeded 3-statement ADFs)'),
  'C08': ('5/C08, 10.2', 'library half only: the crate\'s grammar composition (alternative order, tags, map closures building Formula values, dictionary updates of parse_statement/parse_ac) is executed from its MIR on inputs of concrete length whose bytes are solver variables over a 24-symbol alphabet; a reference recogniser for the documented grammar runs on the same symbolic bytes; per path both must agree on accept/reject, consumed length, tree shape, verbatim label slices (keyword look-alikes), argument order, statement list / dictionary / formula list; no panic path.',
@@ -32,20 +32,21 @@ CLAIMED = {
  'C13': ('5/C13', 'every diagram query executed symbolically on diagrams from symbolic truth tables; z3 decides path counts, model-count ratio and 2^depth normalisation, depth, support, both impact measures, disjointness and exact cover of the path cubes; ModelCounts kernels at full 64-bit width.',
          'std models; default feature set; constant diagrams excluded for path cubes'),
  'C14': ('5/C14', 'both round trips executed symbolically after seeded call histories: (a) Bdd::from(nodes) + Adf::from((ordering, bdd, ac)); (b) JSON import modelled from the serde derive attributes read off the source each run (validated against real serde_json natively) followed by the real fix_import. Checked: node list and roots index by index, every answer vs a fresh object, semantic audit of the imported private tables (supports, counts, unique table) by z3, the C06 invariants, and continued construction on the imported store.',
-         'serde_json encoder/decoder internals are under a contract model; the CLI half (never overwriting an export file) is file-system behaviour and outside'),
+         'serde_json encoder/decoder internals are under a contract model; stores are native-shaped (variable nodes first) and bridged-shaped (only the diagrams\' nodes, as Adf::from_biodivine_vector leaves them); the CLI half (never overwriting an export file) is file-system behaviour and outside'),
  'C16': ('5/C16, 10.2', 'kernels only: the MIR of the server binary merged with the library MIR is executed symbolically - (i) SimplifiedAdf::from(Adf) then Adf::from(SimplifiedAdf) reproduces nodes, roots and names and the rebuilt object answers all six strategies like a fresh one; (ii) DoubleLabeledGraph::from_adf_and_ac on the ADF and on every model of every strategy: node set = reachable set, edges = node table, labels, and z3 decides that following the picture from each root evaluates the submitted acceptance condition under every assignment agreeing with the shown model.',
          'OUTSIDE the claim: HTTP/actix handlers, async task bookkeeping, MongoDB, timeouts, strategy dispatch closure, parse strategies, error reporting for unparseable code. std/Arc/RwLock/String models; native replay compiles the kernels from the server source text'),
  'C18': ('5/C18', 'all of nogoods.rs executed symbolically: sequences of symbolic nogoods (bit-vector pairs) under every duplicate-elimination mode, a symbolic partial interpretation; z3 decides against the 2^V total assignments that the store excludes exactly what was added, conclusions are forced, conflicts are neither spurious nor missed; conclusion_closure (crate-private) likewise.',
-         'roaring bitmap as 32-bit vector; V<=3-4, K<=2-3'),
+         'roaring bitmap as 32-bit vector; V<=3-4, K<=2-3 (thorough: K=4 at V=3 under Subsume with the first nogood fixed up to symmetry); the empty nogood; stores with fewer arity buckets than variables'),
  'C20': ('5/C20', 'both iterators executed symbolically on vectors of unconstrained 64-bit handles (one path per decided/undecided pattern, all values at once): item count 2^k / 3^k, pairwise distinct, decided positions untouched, first item = input (three-valued), None forever afterwards.',
          'std models; vector length <= 6 (quick) / 8 (thorough)'),
+ 'C15': ('5/C15, 10.6', 'App::run (bin/src/main.rs) executed from its MIR on an App value whose ten semantics flags are solver variables: every feasible flag combination is one path in each of the three library modes; the text written to stdout (real print! of the real PrintableInterpretation) is compared per path with what the definitions prescribe for the input file (grounded first, complete models as a set, then one copy of the stable models per stable-model flag, two-valued models for --twoval); well-formed input must not panic, malformed input must panic and print nothing; --lx/--an and --heu with fewer symbolic flags. A flag the code never reads on the flag-free path is reported through the single-flag invocation of the real binary.',
+         'clap argument parsing is NOT executed: the harness constructs the parsed App; the real binary (real clap) is invoked once per mode with every single flag, --heu value and sorting flag, and judged like a replayed counterexample. core::fmt / std::fs / env_logger are stubs (mirse/models_cli.py), biodivine_lib_bdd is its contract model. Bounded: 2-6 concrete input files with 2-3 statements (the semantics on all small ADFs are C01-C05, the syntax C08/C09); OUTSIDE: --import/--export/--counter, verbosity, exit codes beyond panic / no panic. 7 known findings (silently ignored flags) are listed in known_findings.json'),
  'C06': ('5/C06', 'scripts of diagram operations executed symbolically on one store; after every step z3 decides the structural invariants (reduced, ordered, duplicate-free, unique table <-> node table) and handle-equality <=> function-equality for all issued handles.',
          'std HashMap/HashSet/Vec under models; all functions of 2 variables, seeded 3/4-variable families, histories of length 2-3 incl. node-list re-import'),
  'C07': ('5/C07', 'same symbolic runs as C06; per step z3 decides for every assignment that the result table equals the connective / cofactor of the operand tables and that the node-table prefix is unchanged.',
          'as C06'),
 }
 NA = {
- 'C15': 'process-level property (clap argument parsing, file I/O, exit status, stdout): nothing a solver can execute symbolically; see DESIGN.md section 7',
  'C17': 'async actix handlers against MongoDB with argon2 and signed cookies under concurrent requests: no function a bounded symbolic execution can run; see DESIGN.md section 7',
 }
 PENDING = 'check under construction in this session (will be claimed when its harness is committed)'
